@@ -45,6 +45,9 @@ type Adapter struct {
 	Parse func(b []byte, arg int) Result
 	// C08 marks entry points whose result is in C08's list of structures.
 	C08 bool
+	// NoRem: the entry point returns no remainder (it wants exactly the
+	// structure's bytes); not a C03 subject.
+	NoRem bool
 	// Exempt lists field classes of the reference frame that C08 exempts for
 	// this structure (options / entry properties of LS2 and MLS).
 	Exempt []string
@@ -376,7 +379,7 @@ var All = []*Adapter{
 		d, rem, err := lease_set.ReadDestinationFromLeaseSet(b)
 		return Result{Val: &d, Rem: rem, HasRem: true, OK: err == nil}
 	}},
-	{Name: "ReadLeaseSet", C08: true, Gen: func(r *engine.RNG) *engine.Shape {
+	{Name: "ReadLeaseSet", C08: true, NoRem: true, Gen: func(r *engine.RNG) *engine.Shape {
 		sh := IdentShape(r, "dest")
 		sh.Kind = "leaseset"
 		sh.Crypto = 0
@@ -430,6 +433,10 @@ var All = []*Adapter{
 	{Name: "NewSignature", C08: true, Gen: sigShape, Arg: func(sh *engine.Shape) int { return sh.Sig }, Parse: func(b []byte, t int) Result {
 		s, rem, err := signature.NewSignature(b, t)
 		return Result{Val: s, Rem: rem, HasRem: true, OK: err == nil && s != nil}
+	}},
+	{Name: "NewSignatureFromBytes", C08: true, NoRem: true, Gen: sigShape, Arg: func(sh *engine.Shape) int { return sh.Sig }, Parse: func(b []byte, t int) Result {
+		s, err := signature.NewSignatureFromBytes(b, t)
+		return Result{Val: &s, OK: err == nil}
 	}},
 	{Name: "ReadSessionKey", Gen: seedShape("sessionkey"), Arg: noArg, Parse: func(b []byte, _ int) Result {
 		k, rem, err := session_key.ReadSessionKey(b)
